@@ -2,6 +2,7 @@ package limits
 
 import (
 	"fmt"
+	"os"
 	"math/rand/v2"
 	"sort"
 	"sync"
@@ -80,7 +81,13 @@ func genLimitCase(rng *rand.Rand, idx int) LimitCase {
 		if !last {
 			switch rng.IntN(8) {
 			case 0:
+				// half-open streams never carry a body, so at most L of them
+				// are sent: their close frames must not queue up behind a
+				// stream the peer loop cannot accept yet
 				bs.HalfOpen = true
+				for i := range bs.M {
+					bs.M[i] = 1 + rng.IntN(L)
+				}
 			case 1, 2:
 				bs.AbandonEvery = 2 + rng.IntN(3)
 			case 3, 4:
@@ -144,6 +151,8 @@ func plansFor(bs BurstSpec, m int) []limitlab.ReqPlan {
 
 func runLimitCase(r *mon.Run, c LimitCase) {
 	r.Eval()
+	// handler goroutines a failed earlier case may have left behind
+	baseline := limitlab.HandlerGoroutines()
 	w := limitlab.NewWorld(uint64(r.Seed)<<16 ^ uint64(c.Index) ^ 0xA<<40)
 	opts := []syncer.Option{
 		syncer.WithSyncInterval(time.Hour), syncer.WithPeerDiscoveryInterval(time.Hour),
@@ -173,6 +182,7 @@ func runLimitCase(r *mon.Run, c LimitCase) {
 			return nil, err
 		}
 		a.Serve()
+		a.Interleave = os.Getenv("C18_DEBUG_INTERLEAVE") != ""
 		all = append(all, a)
 		return &liveAtt{spec: sp, a: a, sub: sub}, nil
 	}
@@ -183,7 +193,7 @@ func runLimitCase(r *mon.Run, c LimitCase) {
 		}
 		p := bounded(func() { node.S.Close() })
 		if !p.wait(livenessBound) {
-			r.Violation("syncer-close-timeout:after-limit-case", "Syncer.Close did not return within 30 s after all peers had left", c, limitlab.Keys(limitlab.Inventory(nil)))
+			r.Violation("syncer-close-timeout:after-limit-case", "Syncer.Close did not return within 30 s after all peers had left", c, limitlab.Stacks(limitlab.Inventory(nil), 8))
 			return
 		}
 		countLatency(r, "limit", p.latency())
@@ -209,12 +219,13 @@ func runLimitCase(r *mon.Run, c LimitCase) {
 
 	L, B := c.PerPeer, c.PerSubnet
 	everReached := true
+
 	vcase := func(bi int) map[string]any { return map[string]any{"phase": "limits", "case": c, "burst": bi} }
 
 	runBurst := func(bi int, bs BurstSpec) (goOn bool) {
 		// quiescence: every handler of the previous burst has really ended
 		// (goroutine gone = slots released), so expectations are exact
-		if !limitlab.WaitHandlersQuiet(settleBound) {
+		if !limitlab.WaitHandlersAtMost(baseline, settleBound) {
 			r.Inconclusive("limits: handlers of the previous burst did not drain")
 			return false
 		}
@@ -277,9 +288,10 @@ func runLimitCase(r *mon.Run, c LimitCase) {
 			o := node.CM.Observed()
 			parked := node.CM.G.Snap().Parked
 			inv := limitlab.Keys(limitlab.Inventory(nil))
+			stacks := limitlab.Stacks(limitlab.Inventory(nil), 12)
 			letGo()
 			r.Violation(kind+":parked-below-expected", fmt.Sprintf("burst %d: only %d of the %d handlers the limits allow became in-flight within 30 s (per-peer %d, per-subnet %d)", bi, parked, E, L, B), vcase(bi),
-				map[string]any{"expected": E, "parked": parked, "perSubnetNow": o.CurSubnet, "perPeerNow": o.CurPeer, "goroutines": inv})
+				map[string]any{"expected": E, "parked": parked, "perSubnetNow": o.CurSubnet, "perPeerNow": o.CurPeer, "goroutines": inv, "stacks": stacks})
 			return false
 		}
 		time.Sleep(us(bs.HoldUs))
